@@ -40,4 +40,12 @@ KERNELS = {
         dict(name='dec2float', impl=r'impl<D, S> CastFunction for DecimalToFloat<D, S>', fn='cast',
              captures='state: &<DecimalToFloat<D, S> as CastFunction>::State, error_state: &mut CastErrorState'),
     ],
+    'to_decimal': [
+        dict(name='int2dec', impl=r'impl<S, D> CastFunction for IntToDecimal<S, D>', fn='cast',
+             captures='state: &<IntToDecimal<S, D> as CastFunction>::State, error_state: &mut CastErrorState'),
+        dict(name='float2dec', impl=r'impl<S, D> CastFunction for FloatToDecimal<S, D>', fn='cast',
+             captures='state: &<FloatToDecimal<S, D> as CastFunction>::State, error_state: &mut CastErrorState'),
+        dict(name='dec2dec', impl=r'impl<D1, D2> CastFunction for DecimalToDecimal<D1, D2>', fn='cast',
+             captures='state: &<DecimalToDecimal<D1, D2> as CastFunction>::State, error_state: &mut CastErrorState'),
+    ],
 }
